@@ -48,7 +48,7 @@ def streams(rng, n):
 
 
 # harness op, stream mode of the translated program, program, takes the element type, level it is run on
-OPS = [("skva", "E", "prog_sbdf_va_skip", False, "va"), ("rva", "C", "prog_sbdf_va_read", False, "va"), ("skcs", "E", "prog_sbdf_cs_skip", False, "cs"),
+OPS = [("skva", "E", "prog_sbdf_va_skip", False, "va"), ("rva", "C", "prog_sbdf_va_read", False, "va"), ("skcs", "E", "prog_sbdf_cs_skip", False, "cs"), ("rcs", "C", "prog_sbdf_cs_read", False, "cs"),
        ("skobja", "E", "prog_sbdf_obj_skip_arr", True, "oa"), ("robja", "C", "prog_sbdf_obj_read_arr", True, "oa"),
        ("skstr", "E", "prog_sbdf_skip_string", False, "str"), ("rstr", "C", "prog_sbdf_read_string", False, "str"),
        ("ri32", "E2", "prog_sbdf_read_int32", False, "num"), ("r7", "E2", "prog_sbdf_read_7bitpacked_int32", False, "num")]
@@ -62,13 +62,13 @@ def run(ctx, rng, n):
         lines = []; ops = [(o, -1) for o in OPS if o[4] == level]
         if kind == "full" and i % 2 == 0:
             # the readers once more under an allocation schedule: attempt number j fails
-            ops += [(o, j) for o in OPS if o[4] == level and o[1] == "C" for j in (0, 1, 2, 3)]
+            ops += [(o, j) for o in OPS if o[4] == level and o[1] == "C" for j in ((0, 1, 2, 3, 4, 5, 7, 9, 12) if o[0] == "rcs" else (0, 1, 2, 3))]
         for k, ((op, mode, prog, typed, _), fail) in enumerate(ops):
             h = k + 1
             lines.append("in %d %s" % (h, hx(data)))
             pre = "allocfail %d" % fail if fail >= 0 else "nallocs"
             lines.append(pre)
-            if op == "rva": lines.append("rva %d %d" % (h, 10 + h))
+            if op in ("rva", "rcs"): lines.append("%s %d %d" % (op, h, 20 + h))
             elif op == "robja": lines.append("robja %d %d %d" % (h, 10 + h, ty))
             elif typed: lines.append("%s %d %d" % (op, h, ty))
             else: lines.append("%s %d" % (op, h))
